@@ -183,7 +183,7 @@ func c08R4(p *Prog, r *Report) {
 			}
 			for i, rhs := range as.Rhs {
 				sel, ok := ast.Unparen(rhs).(*ast.SelectorExpr)
-				if !ok || objOf(info, sel.X) != resObj {
+				if !ok || !fc.IsCopyOf(sel.X, resObj) {
 					continue
 				}
 				guarded := fc.GuardedBy(lk.V, okEdges, v.ID)
@@ -215,7 +215,7 @@ func c08R4(p *Prog, r *Report) {
 					if !isSel {
 						continue
 					}
-					if objOf(info, sel.X) == resObj && sel.Sel.Name == "UserCipherConfig" {
+					if fc.IsCopyOf(sel.X, resObj) && sel.Sel.Name == "UserCipherConfig" {
 						okDef = true
 					}
 					if objOf(info, sel.X) == fc.RecvObj() && sel.Sel.Name == "userCipherConfig" {
